@@ -103,6 +103,49 @@ fn atoms_bound<T: Serialize + DeserializeOwned + ChallengeInput>(ty: &str, obj: 
         out.push(json!({"ev": "atom", "type": ty, "path": l.path, "role": if response { "response" } else { "nonresponse" },
                         "in_transcript": contains(&tr0, &tree.bytes[l.off..l.off + l.len]), "changed": changed, "decodes": dec}));
     }
+    siblings_bound(ty, obj, out);
+}
+
+/// Sibling sub-objects (array elements `P.0`, `P.1`, ...) that carry first-message atoms: exchanging two of them, or
+/// overwriting one with a copy of another, must change the challenge (an order-insensitive or cancelling combination of
+/// per-element digests would not).
+fn siblings_bound<T: Serialize + DeserializeOwned + ChallengeInput>(ty: &str, obj: &T, out: &mut Vec<Value>) {
+    let tree = Tree::of(obj);
+    let (_, c0) = challenge_of(obj);
+    let mut groups: std::collections::BTreeMap<String, usize> = std::collections::BTreeMap::new();
+    for l in &tree.leaves {
+        if l.path.contains("response") { continue; }
+        let comps: Vec<&str> = l.path.split('.').collect();
+        for j in 0..comps.len() {
+            if let Ok(i) = comps[j].parse::<usize>() {
+                let e = groups.entry(comps[..j].join(".")).or_insert(0);
+                if i + 1 > *e { *e = i + 1; }
+            }
+        }
+    }
+    for (prefix, n) in groups {
+        if n < 2 { continue; }
+        let name = |i: usize| if prefix.is_empty() { format!("{}", i) } else { format!("{}.{}", prefix, i) };
+        let mut pairs = vec![(0usize, 1usize)];
+        if n > 2 { pairs.push((n - 2, n - 1)); pairs.push((0, n - 1)); }
+        for (a, b) in pairs {
+            let (sa, sb) = match (tree.span(&name(a)), tree.span(&name(b))) { (Some(x), Some(y)) => (x, y), _ => continue };
+            if sa.1 - sa.0 != sb.1 - sb.0 { continue; }
+            let (ba, bb) = (tree.bytes[sa.0..sa.1].to_vec(), tree.bytes[sb.0..sb.1].to_vec());
+            if ba == bb { continue; }
+            for kind in ["exchanged", "second overwritten with the first"] {
+                let mut bts = tree.bytes.clone();
+                bts[sb.0..sb.1].copy_from_slice(&ba);
+                if kind == "exchanged" { bts[sa.0..sa.1].copy_from_slice(&bb); }
+                let (dec, changed) = match bincode::deserialize::<T>(&bts) {
+                    Ok(o) => (true, challenge_of(&o).1 != c0),
+                    Err(_) => (false, false),
+                };
+                out.push(json!({"ev": "atom", "type": ty, "path": format!("{} and {} {}", name(a), name(b), kind), "role": "nonresponse",
+                                "in_transcript": true, "changed": changed || !dec, "decodes": true}));
+            }
+        }
+    }
 }
 
 macro_rules! lib_types_n {
@@ -204,6 +247,25 @@ pub fn transcript_lib(seed: u64, thorough: bool) -> Vec<Value> {
         lib_types_n!(8, &mut rng, &mut out);
         lib_types_n!(13, &mut rng, &mut out);
     }
+    // raw byte inputs (contexts, public values) of every length: extending by zero bytes, dropping the last byte and
+    // moving a byte across the boundary of two consecutive inputs of DIFFERENT kinds all change the challenge
+    for len in [0usize, 1, 9, 15, 16, 17, 31, 32, 33, 40, 63, 64, 65] {
+        let mut b = vec![0u8; len];
+        rng.fill_bytes(&mut b);
+        let c = |x: &[u8]| ChallengeBuilder::new().with_bytes(x).finish().to_scalar();
+        let c0 = c(&b);
+        for k in [1usize, 2, 7, 16] {
+            let mut e = b.clone();
+            e.extend(std::iter::repeat(0u8).take(k));
+            out.push(json!({"ev": "bytesext", "len": len, "variant": format!("{} zero byte(s) appended", k), "changed": c(&e) != c0}));
+        }
+        if len > 0 {
+            let mut z = b.clone();
+            z[len - 1] = 0;
+            out.push(json!({"ev": "bytesext", "len": len, "variant": "last byte zero vs last byte dropped", "changed": c(&z) != c(&b[..len - 1])}));
+        }
+    }
+    let _ = take_challenge_log();
     // range constraint parameters, builder and constraint
     let rp = RangeConstraintParameters::new(&mut rng);
     atoms_bound("RangeConstraintParameters", &rp, &mut rng, &mut out, if thorough { 1000 } else { 48 });
@@ -468,6 +530,27 @@ impl GameEnv {
             for (name, c) in [("SHA3-256 digest of the context bytes", Context::new(dig.as_ref())), ("context padded to 32 bytes", Context::new(b"a session context of 31 bytes !\0"))] {
                 let (a, cc) = run2(&c, &mut rng);
                 out.push(json!({"ev": "tuple", "proof": "establish", "component": "context", "variant": name, "in_equation": false, "accepted": a, "challenge_changed": cc != c0b}));
+            }
+        }
+        // a BINARY context (bytes that are not valid UTF-8) and neighbours differing in one such byte
+        {
+            let t3: [u8; 20] = [0x80, 0xff, 0xc3, 0x28, b'a', 0xa0, 0xa1, 0xe2, 0x28, 0xa1, 0xf0, 0x28, 0x8c, 0xbc, 0x00, 0x7f, 0x80, 0xfe, 0xc0, 0xaf];
+            let ctx3 = Context::new(&t3);
+            let (_r3, proof3) = zkabacus_crypto::customer::Requested::new(&mut rng, &cfg, cid, mb, cb, &ctx3);
+            let bytes3 = bincode::serialize(&proof3).unwrap();
+            let mut run3 = |ctx: &Context, rng: &mut StdRng| -> (bool, Option<String>) {
+                let p: EstablishProof = bincode::deserialize(&bytes3).unwrap();
+                let _ = take_challenge_log();
+                let acc = m.initialize(rng, &cid, cb, mb, p, ctx).is_some();
+                (acc, take_challenge_log().into_iter().last().map(|v| crate::util::hex(&v.1)))
+            };
+            let (a0, c0c) = run3(&ctx3, &mut rng);
+            out.push(json!({"ev": "tuple", "proof": "establish", "component": "none", "variant": "original (binary context)", "in_equation": false, "accepted": a0, "challenge_changed": false}));
+            for (pos, nb) in [(0usize, 0x81u8), (1, 0xfe), (5, 0xa2), (16, 0x90), (18, 0xc1), (19, 0xae)] {
+                let mut t = t3;
+                t[pos] = nb;
+                let (a, cc) = run3(&Context::new(&t), &mut rng);
+                out.push(json!({"ev": "tuple", "proof": "establish", "component": "context", "variant": format!("binary context, byte {} {:#04x} -> {:#04x}", pos, t3[pos], nb), "in_equation": false, "accepted": a, "challenge_changed": cc != c0c}));
             }
         }
 
